@@ -17,6 +17,7 @@ import (
 	"runtime/debug"
 	"sort"
 	"strings"
+	"time"
 
 	"go.sia.tech/core/consensus"
 	"go.sia.tech/core/types"
@@ -439,6 +440,8 @@ type obsStore struct {
 	ids         *IDs
 	// onPanic receives the text of a panic (or memory fault) raised inside the real store call
 	onPanic func(msg string)
+	// failAncestor, when it returns true, makes this AncestorTimestamp call report "not found"
+	failAncestor func() bool
 }
 
 func (o *obsStore) panicked(apply bool, s consensus.State, id types.BlockID, p any) {
@@ -448,6 +451,14 @@ func (o *obsStore) panicked(apply bool, s consensus.State, id types.BlockID, p a
 	}
 	o.after(apply, s, id, nil, true)
 	panic(p)
+}
+
+// AncestorTimestamp can be made to fail once (a dependency failing in the middle of a reorg).
+func (o *obsStore) AncestorTimestamp(id types.BlockID) (time.Time, bool) {
+	if o.failAncestor != nil && o.failAncestor() {
+		return time.Time{}, false
+	}
+	return o.Store.AncestorTimestamp(id)
 }
 
 func (o *obsStore) ApplyBlock(s consensus.State, cau consensus.ApplyUpdate) {
@@ -492,7 +503,13 @@ type Rig struct {
 	Panicked    bool
 	PanicMsg    string
 	Probe       *chainx.ProbeStore // non-nil when the manager runs over the atomicity probe
-	V2Batches   int                // batches submitted through AddValidatedV2Blocks
+	// FailAncestor arms a one-shot failure of Store.AncestorTimestamp at the first call the manager
+	// makes after a store operation of the current submission (i.e. inside applyTip, mid-reorg)
+	FailAncestor    bool
+	AncestorFailed  int
+	ExpectedPanic   string // a panic whose text contains this is the designed answer to an injected failure
+	opsInSubmission int
+	V2Batches       int // batches submitted through AddValidatedV2Blocks
 	// intermediate-tip supplement probes: after a store operation that leaves the tip at a height h
 	// with h % ProbeMod == ProbeRem (ProbeMod 0 = off)
 	ProbeMod, ProbeRem uint64
@@ -547,7 +564,16 @@ func NewRigWith(c *vh.Case, t *chainx.Tree, ids *IDs, decls map[int]*Decl, db ch
 		r.Probe = &chainx.ProbeStore{DBStore: store}
 		inner = r.Probe
 	}
-	os := &obsStore{Store: inner, ids: ids, before: r.before, after: r.after, onPanic: func(m string) { r.PanicMsg = firstLine(m) }}
+	os := &obsStore{Store: inner, ids: ids, before: r.before, after: r.after, onPanic: func(m string) { r.PanicMsg = firstLine(m) },
+		failAncestor: func() bool {
+			// only in the middle of a reorg: after at least one ApplyBlock/RevertBlock of this submission
+			if !r.FailAncestor || r.opsInSubmission == 0 {
+				return false
+			}
+			r.FailAncestor = false
+			r.AncestorFailed++
+			return true
+		}}
 	nd := &chainx.Node{Net: t.Net, DB: db, Store: store}
 	nd.CM = chain.NewManager(os, tip)
 	nd.CM.OnReorg(func(ci types.ChainIndex) { nd.Reorgs = append(nd.Reorgs, ci) })
@@ -559,6 +585,7 @@ func NewRigWith(c *vh.Case, t *chainx.Tree, ids *IDs, decls map[int]*Decl, db ch
 }
 
 func (r *Rig) before(apply bool, s consensus.State, blockID types.BlockID) {
+	r.opsInSubmission++
 	if r.OnBefore != nil {
 		id, _ := r.T.Lookup(blockID)
 		r.OnBefore(apply, id)
@@ -610,6 +637,8 @@ func (r *Rig) after(apply bool, s consensus.State, blockID types.BlockID, ds []M
 			r.C.Op(fmt.Sprintf("%s %d", verb, id), "panic")
 		}
 		switch {
+		case r.ExpectedPanic != "" && strings.Contains(r.PanicMsg, r.ExpectedPanic):
+			// a failure the harness injected itself and to which a panic is the store's designed answer
 		case strings.Contains(r.PanicMsg, "fault") || strings.Contains(r.PanicMsg, "invalid memory address"):
 			// e.g. a write into the read-only mmap of a Bolt value returned by Get
 			r.C.Oracle("store-memory-fault", "DBStore.%sBlock on block %d (kinds %v) faulted: %s (the store wrote through a slice it got from the database)", title(verb), id, r.T.Blocks[id].Kinds, r.PanicMsg)
@@ -943,6 +972,7 @@ func keysOf(m map[string][]byte) string {
 
 // Submit calls AddBlocks, recovering a panic.
 func (r *Rig) Submit(batch []int) (res string) {
+	r.opsInSubmission = 0
 	defer debug.SetPanicOnFault(debug.SetPanicOnFault(true))
 	defer func() {
 		if p := recover(); p != nil {
@@ -985,6 +1015,7 @@ func PreValidated(t *chainx.Tree, batch []int) bool {
 // SubmitV2 hands the batch to AddValidatedV2Blocks with the full post-block states computed on
 // linear twins (the pre-validated path of the syncer), recovering a panic.
 func (r *Rig) SubmitV2(batch []int) (res string) {
+	r.opsInSubmission = 0
 	defer debug.SetPanicOnFault(debug.SetPanicOnFault(true))
 	defer func() {
 		if p := recover(); p != nil {
